@@ -26,5 +26,5 @@ const char *g_dec_last_src; const void *g_dec_last_res; int g_dec_last_len;
 /* JWK import ghosts (contracts/jwk_parse_c.h) */
 const void *g_jwk_tracked_bin;		/* decoding of the tracked JWK member's text (set by the abstract jwt_base64uri_decode) */
 const char *g_push_name_of_tracked;	/* OSSL parameter name that value was pushed under (NULL: not pushed) */
-int g_push_count; const char *g_pkey_type_name; int g_fromdata_selection; size_t g_ossl_bits; int g_pem_private;
+unsigned g_push_count; const char *g_pkey_type_name; int g_fromdata_selection; size_t g_ossl_bits; int g_pem_private;
 const char *g_ec_point_curve; const void *g_ec_point_x, *g_ec_point_y;
